@@ -120,6 +120,15 @@ theorem noLateFault_of_allChecks (a : List (Step K)) (h : allChecks a = true) : 
   have := noLateFault_checks_append a [] h
   simpa [noLateFault] using this
 
+/-- a list whose steps all pass has no late fault -/
+theorem noLateFault_of_passes_tail (s : List (Step K)) (h : s.all Step.passes = true) : noLateFault s = true := by
+  induction s with
+  | nil => rfl
+  | cons st r ih =>
+    cases st with
+    | check t v => simp only [List.all_cons, Bool.and_eq_true] at h; simpa [noLateFault] using ih h.2
+    | eff t e => simp only [List.all_cons, Bool.and_eq_true] at h; simpa [noLateFault] using h.2
+
 theorem effSteps_of_allChecks (a : List (Step K)) (h : allChecks a = true) : effSteps a = [] := by
   induction a with
   | nil => rfl
@@ -220,6 +229,113 @@ theorem applyAll_mulSub (kern : String → K → K) (stored : K) (t : Target K) 
     by_cases hz : (v != 0) = true
     · simp [mulSubEffects, offsetTruthy, hz, applyAll, Eff.apply, applyFactor]
     · simp [mulSubEffects, offsetTruthy, hz, applyAll, Eff.apply, applyFactor]
+
+theorem mulSub_all_pass (N : NumpyFacts) (d : Dtype) (f : K × Option K) (hm : N.imulPyFloatOk.contains d = true) :
+    (mulSub N true d f).all Step.passes = true := by
+  simp only [mulSub, hm]
+  cases offsetTruthy f.2 <;> simp [Step.passes]
+
+theorem mulSub_noLate (N : NumpyFacts) (w : Bool) (d : Dtype) (f : K × Option K) (tail : List (Step K))
+    (ht : tail.all Step.passes = true) : noLateFault (mulSub N w d f ++ tail) = true := by
+  simp only [mulSub, List.cons_append, noLateFault, List.all_append, ht, List.nil_append]
+  cases offsetTruthy f.2 <;> simp [Step.passes]
+
+/-- when the data conversion returns: the dtype of C17's `convertToUnitsDtype`, and exactly these effects -/
+theorem convertData_ok (fl : CtuFlags) (N : NumpyFacts) (P : DtypeRules) (a : Arr K) (f : K × Option K)
+    (h : (runSteps (convertData fl N P a f)).result = .ok ()) :
+    ∃ nd pre, convertToUnitsDtype N P a.dtype = .ok nd
+      ∧ ((pre = [] ∧ nd = a.dtype) ∨ pre = [Eff.retype nd, Eff.retype nd, Eff.castCopy nd])
+      ∧ (runSteps (convertData fl N P a f)).effects = pre ++ mulSubEffects f := by
+  unfold convertData at h ⊢
+  unfold convertToUnitsDtype
+  cases hi : P.inplaceIntKinds.contains a.dtype.kind with
+  | false =>
+    rw [hi] at h
+    simp only [Bool.false_eq_true, if_false] at h ⊢
+    obtain ⟨_, hm, hef⟩ := mulSub_ok N a.writeable a.dtype f h
+    exact ⟨a.dtype, [], by rw [hm]; rfl, Or.inl ⟨rfl, rfl⟩, by rw [hef]; rfl⟩
+  | true =>
+    rw [hi] at h
+    simp only [if_true] at h ⊢
+    by_cases hs : a.dtype.size = P.inplaceRefuseSize
+    · simp [hs, runSteps] at h
+    · simp only [hs, if_false] at h ⊢
+      cases hn : npDtype N P.inplaceKind a.dtype.size with
+      | error e => rw [hn] at h; cases hr : fl.roGuard <;> cases hw : a.writeable <;> simp [hr, hw, runSteps] at h
+      | ok nd =>
+        rw [hn] at h
+        refine ⟨nd, [Eff.retype nd, Eff.retype nd, Eff.castCopy nd], rfl, Or.inr rfl, ?_⟩
+        cases hr : fl.roGuard <;> cases hw : a.writeable <;> rw [hr, hw] at h <;>
+          simp only [Bool.false_eq_true, if_false, if_true, Bool.or_false, Bool.or_true, Bool.true_or, Bool.false_or,
+            List.nil_append, List.cons_append, runSteps] at h ⊢
+        · cases h
+        · obtain ⟨_, _, hef⟩ := mulSub_ok N true nd f h
+          rw [hef]
+        · cases h
+        · obtain ⟨_, _, hef⟩ := mulSub_ok N true nd f h
+          rw [hef]
+
+/-- unpatched guard: every step of the data conversion passes -/
+theorem convertData_all_pass (fl : CtuFlags) (N : NumpyFacts) (P : DtypeRules) (a : Arr K) (f : K × Option K)
+    (hw : a.writeable = true)
+    (hd : (match convertToUnitsDtype N P a.dtype with | .ok nd => N.imulPyFloatOk.contains nd | .error _ => false) = true) :
+    (convertData fl N P a f).all Step.passes = true := by
+  unfold convertData
+  unfold convertToUnitsDtype at hd
+  cases hi : P.inplaceIntKinds.contains a.dtype.kind with
+  | false =>
+    rw [hi] at hd
+    simp only [Bool.false_eq_true, if_false] at hd ⊢
+    cases hm : N.imulPyFloatOk.contains a.dtype with
+    | false => rw [hm] at hd; simp at hd
+    | true => rw [hw]; exact mulSub_all_pass N a.dtype f hm
+  | true =>
+    rw [hi] at hd
+    simp only [if_true] at hd ⊢
+    by_cases hs : a.dtype.size = P.inplaceRefuseSize
+    · simp [hs] at hd
+    · simp only [hs, if_false] at hd ⊢
+      cases hn : npDtype N P.inplaceKind a.dtype.size with
+      | error e => rw [hn] at hd; simp at hd
+      | ok nd =>
+        rw [hn] at hd
+        simp only at hd
+        have := mulSub_all_pass (K := K) N nd f hd
+        cases fl.roGuard <;> simp [hw, Step.passes, this]
+
+/-- patched order (unit last): only the integer route performs an effect before its last fallible step -/
+theorem convertData_noLate (fl : CtuFlags) (N : NumpyFacts) (P : DtypeRules) (a : Arr K) (f : K × Option K)
+    (tail : List (Step K)) (ht : tail.all Step.passes = true)
+    (hg : (!(P.inplaceIntKinds.contains a.dtype.kind) ||
+      (match convertToUnitsDtype N P a.dtype with
+       | .ok nd => (fl.roGuard || a.writeable) && N.imulPyFloatOk.contains nd
+       | .error _ => true)) = true) :
+    noLateFault (convertData fl N P a f ++ tail) = true := by
+  unfold convertData
+  unfold convertToUnitsDtype at hg
+  cases hi : P.inplaceIntKinds.contains a.dtype.kind with
+  | false =>
+    simp only [Bool.false_eq_true, if_false]
+    exact mulSub_noLate N a.writeable a.dtype f tail ht
+  | true =>
+    rw [hi] at hg
+    simp only [Bool.not_true, Bool.false_or, if_true] at hg ⊢
+    by_cases hs : a.dtype.size = P.inplaceRefuseSize
+    · simp only [hs, if_true, List.cons_append, List.nil_append, noLateFault]
+      exact noLateFault_of_passes_tail tail ht
+    · simp only [hs, if_false] at hg ⊢
+      cases hn : npDtype N P.inplaceKind a.dtype.size with
+      | error e =>
+        cases fl.roGuard <;> simp only [Bool.false_eq_true, if_false, if_true, List.nil_append, List.cons_append, noLateFault] <;>
+          exact noLateFault_of_passes_tail tail ht
+      | ok nd =>
+        rw [hn] at hg
+        simp only [Bool.and_eq_true] at hg
+        obtain ⟨hw', hm⟩ := hg
+        have hmp := mulSub_all_pass (K := K) N nd f hm
+        rw [hw']
+        cases hr : fl.roGuard <;> simp only [Bool.false_eq_true, if_false, if_true, List.nil_append, List.cons_append,
+          noLateFault, List.all_cons, List.all_append, Step.passes, Bool.true_and, hmp, ht, Bool.and_true]
 
 end ctu
 
